@@ -1,7 +1,7 @@
 (* Scalar carrier of the algorithmic-differentiation model (C02): one text of the
    rules (gen/AldiGen.v, regenerated from aldi/differentiators.py) and of the
    tree evaluator (model/AldiTree.v), two instances:
-   - [RD]     Coq's reals: what the theorems are about;
+   - [RD]     Coq's reals (lib/DualR.v): what the theorems are about;
    - [FD tb]  IEEE-754 binary64 through PrimFloat: what is run against numpy.
               + - * / sqrt and comparisons are the primitive (bit-exact) operations;
               exp/ln/power/expit/normal_pdf are software approximations (~1e-15
@@ -9,10 +9,8 @@
               normal_cdf of a literal constant is looked up in a table recorded
               from scipy.
    NO proofs in this file. *)
-From Coq Require Import ZArith List Bool Reals PrimFloat Uint63 FloatOps.
-From Coquelicot Require Import Coquelicot.
+From Coq Require Import ZArith List Bool PrimFloat Uint63 FloatOps.
 Import ListNotations.
-Local Open Scope R_scope.
 
 Record DArith := mkDArith {
   dcar : Type;
@@ -35,34 +33,6 @@ Record DArith := mkDArith {
   dltb : dcar -> dcar -> bool;
   deqb : dcar -> dcar -> bool
 }.
-
-(* ------------------------------------------------------------------ reals *)
-
-Definition Rltb (x y : R) : bool := if Rlt_dec x y then true else false.
-Definition Reqb (x y : R) : bool := if Req_EM_T x y then true else false.
-
-(* y is (the injection of) an integer *)
-Definition as_int (y : R) : option Z :=
-  let n := (up y - 1)%Z in if Req_EM_T (IZR n) y then Some n else None.
-
-(* the real power function on its natural domain: positive base and any exponent,
-   or any base and an integer exponent; 0 elsewhere (numpy: nan) *)
-Definition rpow (x y : R) : R :=
-  if Rlt_dec 0 x then Rpower x y
-  else match as_int y with
-       | Some n => powerRZ x n
-       | None => 0%R
-       end.
-
-Definition expit (x : R) : R := (1 / (1 + exp (- x)))%R.
-Definition npdf (x : R) : R := (exp (- (x * x) / 2) / R_sqrt.sqrt (2 * PI))%R.
-Definition ncdf (x : R) : R := (1 / 2 + RInt npdf 0 x)%R.
-
-Definition RD : DArith := {|
-  dcar := R; dadd := Rplus; dsub := Rminus; dmul := Rmult; ddiv := Rdiv; dneg := Ropp;
-  dofZ := IZR; dln := ln; dexp := exp; dsqrt := R_sqrt.sqrt; dexpit := expit; dpow := rpow;
-  dabs := Rabs; dmax := Rmax; dmin := Rmin; dnpdf := npdf; dncdf := ncdf;
-  dltb := Rltb; deqb := Reqb |}.
 
 (* ----------------------------------------------------------------- floats *)
 
